@@ -9,7 +9,7 @@
      str:<hex>  bytes:<hex>/<cap>   other:<tag>
    addresses never appear; sharing is printed as a 0/1 class. *)
 From Coq Require Import List Arith Bool Ascii String ZArith NArith Floats.SpecFloat.
-From Verif Require Import Util Ints Strconv Floats Static StaticSpec.
+From Verif Require Import Util Ints Strconv Floats Static StaticSpec Spellings.
 Import ListNotations.
 Local Open Scope string_scope.
 
@@ -336,6 +336,50 @@ Definition cmp_cases (full : bool) (vclass : string) (a : sarg) : list rawcase :
                           then [case_cmp vclass a op right true] else []))%list) all_ops)
     (operands_for full a).
 
+(* ---------- operand spellings of integers ---------- *)
+(* Compare parses the operand of an integer kind with base 0: one number has many
+   texts (Gen/Spellings.v: leading zero = octal, 0x/0o/0b, underscores, signs,
+   zero padding to the widths of the 64-bit bounds) and many near misses (08, 019,
+   _15, blanks).  Every integer kind, by value and by pointer, is compared with
+   every spelling of its own value: a reading that differs from strconv's in any
+   of them changes == (the text that means the value, or the one that only looks
+   like it) or turns a number into a non-number and back (result left alone). *)
+Definition is_64 (k : ikind) : bool := (bits k =? 64)%Z.
+
+Definition spell_vals (full : bool) (k : ikind) : list Z :=
+  let sgn := is_signed k in
+  (* 15 = 017, "015" is 13; 19 = 023, "019" is no number *)
+  [15%Z; if sgn then (-19)%Z else 19%Z] ++
+  (if is_64 k then (if sgn then [(e18 - 1)%Z; (- e18)%Z] else [(e19 - 1)%Z; e19]) else []) ++
+  (if full
+   then [0%Z; 1%Z; 7%Z; 8%Z; 64%Z; 100%Z; kmax k; kmin k] ++
+        (if sgn then [(-1)%Z; (-8)%Z; (-15)%Z; 19%Z] else []) ++
+        (if is_64 k then [(e18 - 1)%Z; e18; (e18 / 10 - 1)%Z; (e18 / 10)%Z] ++
+                         (if sgn then [(1 - e18)%Z; (- (e18 / 10))%Z] else [(e19 - 1)%Z; e19]) else [])
+   else []).
+
+Fixpoint dedupZ (l : list Z) : list Z :=
+  match l with
+  | [] => []
+  | x :: r => if existsb (Z.eqb x) r then dedupZ r else x :: dedupZ r
+  end.
+
+(* quick tier: ==, <, >= and a stale true under == and >=; thorough: every operator, a stale true under three of them *)
+Definition spell_ops (full : bool) : list (sop * bool) :=
+  if full then (map (fun o => (o, false)) all_ops ++ [(OpEq, true); (OpLt, true); (OpUnk, true)])%list
+  else [(OpEq, false); (OpEq, true); (OpLt, false); (OpGtq, true)].
+
+Definition spell_cmp (full : bool) (a : sarg) (z : Z) : list rawcase :=
+  flat_map (fun p : spelling =>
+              map (fun ob : sop * bool => case_cmp ("spelling,sp=" ++ fst p) a (fst ob) (snd p) (snd ob)) (spell_ops full))
+           (spellings_of full z).
+
+Definition spell_cases (full : bool) : list rawcase :=
+  flat_map (fun k =>
+    flat_map (fun z => (spell_cmp full (AVal (VInt k z)) z ++ spell_cmp full (APtr (VInt k z)) z)%list)
+             (dedupZ (spell_vals full k)))
+    all_ikinds.
+
 (* ---------- CopyTo destinations ---------- *)
 Definition zero_of (k : skind) : list sval :=
   match k with
@@ -368,6 +412,7 @@ Definition enum_cases (rv : rev) (full : bool) : list rawcase :=
   map (fun a => case_noop "setbuf" a (AVal (VStr id_dst "zz"))) small ++
   map (fun a => case_noop "loop" a (AVal (VOther 0))) small ++
   flat_map (cmp_cases full "boundary") args ++
+  spell_cases full ++
   flat_map (fun l => map (case_deq rv "boundary" l) dargs) dargs ++
   map case_copy args ++
   flat_map (copyto_cases full) (if full then args else small) ++
@@ -480,11 +525,19 @@ Definition related_arg (s : rng) (l : sarg) : sarg * rng :=
   end.
 
 Definition rnd_operand (s : rng) (a : sarg) : string * rng :=
-  let '(c, s1) := rng_nat s 3 in
+  let '(c, s1) := rng_nat s 4 in
   if Nat.eqb c 0 then let '(n, s2) := rng_nat s1 4 in
                       let '(t, s3) := rnd_text n s2 in
                       (match arg_family a with FamFloat => if pf_domain t then t else "1.25" | _ => t end, s3)
-  else pick_list s1 "" (operands_for true a).
+  else
+    match c, denotes a with
+    | 1, Some (VInt _ z) =>
+      (* some spelling of the value itself or of a number nearby *)
+      let '(d, s2) := rng_nat s1 5 in
+      let '(p, s3) := pick_list s2 ("dec", "0") (spellings_of true (z + Z.of_nat d - 2)) in
+      (snd p, s3)
+    | _, _ => pick_list s1 "" (operands_for true a)
+    end.
 
 Fixpoint rnd_cases (rv : rev) (count : nat) (s : rng) : list rawcase :=
   match count with
